@@ -777,6 +777,164 @@ def check_c10(tier, seed):
 
 
 # --------------------------------------------------------------------------------------------
+# C20: Tree.tla / Deploy.tla + tree and deploy drivers
+
+
+def parse_marked(out, tag):
+    bad = []
+    for ln in out.split('\n'):
+        if ln.startswith('"%s|VIOLATION' % tag):
+            p = json.loads(ln).split('|')
+            bad.append(dict(what=p[2], a=p[3], b=p[4]))
+    return bad
+
+
+def check_c20(tier, seed):
+    prop = 'C20'
+    build_harness()
+    quick = tier == 'quick'
+    fam = family('treefam+hand+timed+core6' if quick else 'treefam+hand+timed+core7+branchy')
+    out, wall = tlc('MCTree.tla', 'SPECIFICATION Spec\nCONSTANT SharedCatchPrev = FALSE\nCONSTANT SharedCatchPrevMC = FALSE\n'
+                    'INVARIANT WellFormed\nCHECK_DEADLOCK FALSE\n', 'tree-mc', env={'MODELS': fam}, workers=8, timeout=3000)
+    st1, tr1 = tlc_stats(out)
+    if 'Error:' in out or st1 == 0:
+        raise ToolError('Tree.tla is not well formed on the family: the specification is wrong\n' + out[-1500:])
+    out, wall = tlc('MCDeploy.tla', open(SPEC + '/MCDeploy.cfg').read(), 'deploy-mc', workers=4, timeout=600)
+    st2, tr2 = tlc_stats(out)
+    if 'Error:' in out or st2 == 0:
+        raise ToolError('Deploy.tla fails its invariants\n' + out[-1500:])
+    d = '%s/c20-%s' % (WORK, tier)
+    shutil.rmtree(d, ignore_errors=True)
+    os.makedirs(d)
+    violations = []
+    # tree + round trip: every model of the family, in chunks
+    tf = d + '/trees.ndjson'
+    sh([HARNESS, 'tree', '--models', fam, '--out', tf], check=True, timeout=1800)
+    lines = open(tf).read().split('\n')
+    lines = [x for x in lines if x]
+    chunks = [lines[i:i + 400] for i in range(0, len(lines), 400)]
+
+    def run_tree(ic):
+        i, chunk = ic
+        f = '%s/trees-%02d.ndjson' % (d, i)
+        with open(f, 'w') as fh:
+            fh.write('\n'.join(chunk) + '\n')
+        out, wall = tlc('TraceTree.tla', open(SPEC + '/TraceTree.cfg').read(), 'tree-tr-%d' % i, env={'TRACE': f},
+                        workers=1, timeout=1800, java_opts=JOPTS)
+        if 'TREE|DONE' not in out:
+            raise ToolError('TraceTree failed on %s\n%s' % (f, out[-2000:]))
+        return [(b, f) for b in parse_marked(out, 'TREE')]
+
+    with concurrent.futures.ThreadPoolExecutor(max_workers=8) as ex:
+        for res in ex.map(run_tree, list(enumerate(chunks))):
+            for b, f in res:
+                k = int(b['a'])
+                rec = json.loads(open(f).read().split('\n')[k - 1])
+                path = replay_file(prop, tier, seed, b['what'] + ': ' + b['b'], dict(model_line=rec))
+                violations.append((b['what'], path))
+    # registry
+    runs = 40 if quick else 400
+    n_dep = 0
+
+    def run_dep(b):
+        f = '%s/dep-%s.ndjson' % (d, b)
+        sh([HARNESS, 'deploy', '--out', f, '--runs', str(runs), '--ops', '30', '--backend', b, '--seed', str(seed + 7),
+            '--workdir', d + '/run'], check=True, timeout=1800)
+        out, wall = tlc('TraceDeploy.tla', 'SPECIFICATION DSpec\nPOSTCONDITION DDone\nCHECK_DEADLOCK FALSE\n',
+                        'deploy-tr-' + b, env={'TRACE': f}, workers=1, timeout=1800, java_opts=JOPTS)
+        if 'DEPLOY|DONE' not in out:
+            raise ToolError('TraceDeploy failed on %s\n%s' % (f, out[-2000:]))
+        return [(x, f, b) for x in parse_marked(out, 'DEPLOY')]
+
+    with concurrent.futures.ThreadPoolExecutor(max_workers=2) as ex:
+        for res in ex.map(run_dep, ['mem', 'sqlite']):
+            seen = set()
+            for x, f, b in res:
+                if x['a'] in seen:
+                    continue
+                seen.add(x['a'])
+                ls = scenario_lines_by(f, int(x['a']), '"ev":"deploymodel"')
+                path = replay_file(prop, tier, seed, 'registry deviates from Deploy.tla: ' + x['what'],
+                                   dict(backend=b, at_line=x['b'], trace=[json.loads(y) for y in ls]))
+                violations.append((x['what'], path))
+    sample = json.loads(lines[0])
+    write_evidence(prop, tier, seed, 'model_checking', dict(
+        states=st1 + st2, transitions=tr1 + tr2, traces_validated_against_impl=len(lines) + 2 * runs - len(violations),
+        samples=[dict(name=sample.get('name'), tree_nodes=len(sample['tree']['nodes']), roundtrip=sample['tree'].get('roundtrip'))],
+        model_checking=dict(specs=['spec/Tree.tla (TreeWellFormed over the family)', 'spec/Deploy.tla (MCDeploy.tla)'],
+                            models=count_lines(fam)),
+        conformance=dict(tree_models=len(lines), registry_scenarios=2 * runs, backends=['mem', 'sqlite'],
+                         deviations=len(violations)),
+        rule='every model of the family: engine tree == Flatten(model) (or both reject), table well formed, YAML/JSON '
+             'round trip equal, parsed model keeps every value of its text; registry: seeded random deploy/rm/start sequences'),
+        len(violations), ['round-trip and text-fidelity equality are decided in the harness (serde values), TLC requires the flags',
+                          'generated (empty) ids are not part of the tree comparison'])
+    for what, path in violations[:5]:
+        print('VIOLATION property=%s replay=%s' % (prop, path))
+    return 1 if violations else 0
+
+
+# --------------------------------------------------------------------------------------------
+# C18: Glob.tla / Channels.tla + chan driver
+
+
+def check_c18(tier, seed):
+    prop = 'C18'
+    build_harness()
+    quick = tier == 'quick'
+    out, wall = tlc('MCGlob.tla', 'SPECIFICATION Spec\nINVARIANT Laws\nINVARIANT ChanLaws\nCHECK_DEADLOCK FALSE\n', 'glob-mc',
+                    workers=8, timeout=1200)
+    states, trans = tlc_stats(out)
+    if 'Error:' in out or states == 0:
+        raise ToolError('Glob.tla / Channels.tla fail their own laws: the specification is wrong\n' + out[-1500:])
+    d = '%s/c18-%s' % (WORK, tier)
+    shutil.rmtree(d, ignore_errors=True)
+    os.makedirs(d)
+    shards, runs = (6, 60) if quick else (14, 1200)
+
+    def run(i):
+        f = '%s/chan-%02d.ndjson' % (d, i)
+        sh([HARNESS, 'chan', '--out', f, '--runs', str(runs), '--seed', str(seed * 100 + i), '--workdir', d + '/run'],
+           check=True, timeout=3000)
+        out, wall = tlc('TraceChan.tla', 'SPECIFICATION CSpec\nPOSTCONDITION CDone\nCHECK_DEADLOCK FALSE\n', 'chan-tr-%d' % i,
+                        env={'TRACE': f}, workers=1, timeout=3000, java_opts=JOPTS)
+        if 'CHAN|DONE' not in out:
+            raise ToolError('TraceChan failed on %s\n%s' % (f, out[-2000:]))
+        emits = sum(1 for ln in open(f) if '"op":"Emit"' in ln)
+        regs = sum(1 for ln in open(f) if '"op":"Register"' in ln)
+        hit = sum(1 for ln in open(f) if '"op":"Emit"' in ln and '"got":[]' not in ln)
+        return dict(file=f, bad=parse_marked(out, 'CHAN'), emits=emits, regs=regs, hit=hit)
+
+    with concurrent.futures.ThreadPoolExecutor(max_workers=8) as ex:
+        results = list(ex.map(run, range(shards)))
+    violations = []
+    for r in results:
+        seen = set()
+        for b in r['bad']:
+            if b['a'] in seen:
+                continue
+            seen.add(b['a'])
+            ls = scenario_lines_by(r['file'], int(b['a']), '"ev":"chanmodel"')
+            path = replay_file(prop, tier, seed, 'channel deliveries deviate from Channels.tla: ' + b['what'],
+                               dict(at_line=b['b'], trace=[json.loads(y) for y in ls]))
+            violations.append((b['what'], path))
+    emits = sum(r['emits'] for r in results)
+    sample = [json.loads(x) for x in scenario_lines_by(results[0]['file'], 1, '"ev":"chanmodel"')][:8]
+    write_evidence(prop, tier, seed, 'model_checking', dict(
+        states=states, transitions=trans, traces_validated_against_impl=shards * runs - len(violations), samples=[sample],
+        model_checking=dict(spec='spec/Glob.tla, spec/Channels.tla via spec/MCGlob.tla', invariants=['Laws', 'ChanLaws']),
+        conformance=dict(scenarios=shards * runs, messages=emits, messages_delivered_to_some_channel=sum(r['hit'] for r in results),
+                         channel_registrations=sum(r['regs'] for r in results), deviations=len(violations)),
+        rule='random token patterns (literals, *, ?, classes, negated classes, alternations) for the five options of up to 3 '
+             'channels registered / re-registered / closed / unsubscribed at arbitrary points of gated engine runs; for every '
+             'generated message TLC recomputes the receiver set with its own matcher'),
+        len(violations), ['pattern texts globset refuses are not generated', 'no escapes, no ranges inside classes'])
+    for what, path in violations[:5]:
+        print('VIOLATION property=%s replay=%s' % (prop, path))
+    return 1 if violations else 0
+
+
+# --------------------------------------------------------------------------------------------
 
 
 def do_replay(prop, path):
@@ -822,6 +980,10 @@ def main(argv):
             return check_c09(tier, seed)
         if prop == 'C10':
             return check_c10(tier, seed)
+        if prop == 'C20':
+            return check_c20(tier, seed)
+        if prop == 'C18':
+            return check_c18(tier, seed)
         print('no check for', prop)
         return 2
     except ToolError as e:
